@@ -175,6 +175,10 @@ def build_inputs(tier):
         cases.append(("call", (pre, fn, written, suf)))
     for cont in ["a \\\n b", "(b \\\n + c)", "x, y \\\n", "'s' \\\r\n 't'"]:
         cases.append(("call", ("r = ", "f", cont.split(",") if "," in cont and "(" not in cont else [cont], "\n")))
+    # comments inside a call macro that spans several physical lines are part of the verbatim argument text
+    for written in [["x = 1", " # the first one\n   y = 2"], ["(a, # inner\n b)"], ["a # c1\n", " b # c2\n"], ["[1, # k\n 2]", " z"], ["a # only\n"]]:
+        for pre, suf in [("r = ", "\n"), ("", "\n"), ("print(", ", 3)\n")]:
+            cases.append(("call", (pre, "f", written, suf)))
     cases.append(("call", ("", "match", ["a", " b"], "\n")))
     cases.append(("call", ("x = ", "match", ["a b"], "\n")))
     for rest in ["{a} b", "(a (b) c) d", "f'{x}' y", "`a.*` z", "[x [y]]"]:
